@@ -22,6 +22,11 @@ PROP = {'rule': 'rapid state machine (-rapid.steps=50) over the real migration R
          'Scheduled=False/Unschedulable; Preempt answers from a model not-started/in-progress/complete with the incomplete shapes '
          '(false,zero,nil) / (false,RequeueAfter,nil) / (false,_,err); an environment event completes the preemption). For such a '
          'reservation an Evict is accepted only once the preemption has completed. '
+         'UserInput also writes spec.reservationOptions.template with spec.allocateOnce false / nil / true (the controller creates the '
+         'Reservation from it) and lets a scaled-out replica consume such a reservation before the job has evicted; the environment '
+         'follows the scheduler\'s syncStatus: currentOwners always, phase Succeeded only for allocate-once (nil = true), otherwise the '
+         'reservation stays Available with owners. In Extended a third of the jobs\' reservations report NeedPreemption()=false (Preempt, '
+         'if asked for one, answers "nothing to preempt, complete"; that never counts as capacity secured). '
          'non-trivial = the job\'s reservation changes state between two reconciles of a Running job, or an API write fails right after a '
          'successful Evict. distinct = FNV-64 fingerprint of the full history.',
  'assumptions': ['API = controller-runtime fake client with status subresources for PodMigrationJob and Reservation, plus server-side UID / '
@@ -42,7 +47,7 @@ PROP = {'rule': 'rapid state machine (-rapid.steps=50) over the real migration R
             'pkg': 'pkg/descheduler/controllers/migration',
             'files': ['C17/c17_migration_test.go'],
             'tests': [{'run': 'TestVerifC17History', 'quick': 600, 'quick_shards': 3, 'thorough': 3000, 'steps': 50},
-                      {'run': 'TestVerifC17UserInput', 'quick': 600, 'quick_shards': 1, 'thorough': 3000, 'shards': 4, 'steps': 50},
+                      {'run': 'TestVerifC17UserInput', 'quick': 600, 'quick_shards': 2, 'thorough': 3000, 'shards': 4, 'steps': 50},
                       {'run': 'TestVerifC17Extended', 'quick': 600, 'quick_shards': 2, 'thorough': 3000, 'shards': 4, 'steps': 50}]}],
  'manifest': {'technique': 'property-based testing (rapid): state-machine histories of reconcile / environment / clock / restart / '
                            'fault-injection actions against the real controller, with a recording evictor and an independent oracle on the raw API objects',
